@@ -189,6 +189,79 @@ def job_thole(seed):
     return obs
 
 
+def job_polar(seed):
+    """induced-dipole terms: CalcPolar_stat_Energy_site = mu_ind . grad(phi_static); ApplyInducedField_site adds T^T mu_ind(site1) to site 2;
+    CalcPolarEnergy_site(polar, polar): E_indu_indu = mu1^T T mu2, E_indu_stat = both induced-static terms"""
+    rvc.reset()
+    fns = fns_all()
+    for need in ('CalcPolar_stat_Energy_site', 'ApplyInducedField_site', 'CalcPolarEnergy_site'):
+        if need not in fns:
+            raise core.Undecided('front end: eeInteractor::%s not found' % need)
+    obs = []
+    v4 = [f for f in fns['VSiteA'] if '4, 1' in f['type']['qualType']][0]
+    def polar(tag, rank):
+        st = mk_site(tag, rank)
+        st['mu'] = Mx.sym(tag + 'mu', 3)
+        return st
+    def ex_for(P=None):
+        ex = mk_exec(fns, {})
+        ex.cb.update({'Induced_Dipole': lambda st: st['mu'], 'getSqrtInvEigenDamp': lambda st: D(sp.Symbol('g' + st['tag'], positive=True)),
+                      'decl': lambda e, vd, ty, inner: ({'E_indu_indu': D(0), 'E_indu_stat': D(0)} if ty.endswith('E_terms') else NotImplemented),
+                      'E_indu_indu': lambda o: rvc.Ref(lambda: o['E_indu_indu'], lambda v: o.__setitem__('E_indu_indu', D.lift(v))),
+                      'E_indu_stat': lambda o: rvc.Ref(lambda: o['E_indu_stat'], lambda v: o.__setitem__('E_indu_stat', D.lift(v)))})
+        ex.this['expdamping_'] = D(sp.Symbol('alpha', positive=True))
+        if P is not None:
+            ex.cb['decide'] = P.decide
+        return ex
+    F = 'eeInteractor::CalcPolar_stat_Energy_site'
+    for r2 in range(3):
+        S1, S2 = polar('a', 1), mk_site('b', r2)
+        ex = ex_for()
+        e = D.lift(ex.call_fn(fns['CalcPolar_stat_Energy_site'][0], [S1, S2], ex.this))
+        V = ex_for().call_fn(v4, [S1, S2], ex.this)
+        obs.append(rvc.identity('C15.polar/stat.rank%d' % r2, F, 'induced-static energy == mu_ind(site1) . gradient of the static potential of site 2 at site 1 (rows 1..3 of VSiteA<4>)', e.v,
+                                sum(S1['mu'].g(k).v * V.g(1 + k).v for k in range(3)), seed))
+    # ApplyInducedField_site: both instantiations, both damping branches
+    for inst in fns['ApplyInducedField_site']:
+        P = rvc.Paths()
+        while True:
+            P.start()
+            rvc.CTX.base, rvc.CTX.rad = [], []
+            S1, S2 = polar('a', 1), polar('b', 1)
+            ex = ex_for(P)
+            e = ex.call_fn(inst, [S1, S2], ex.this)
+            T = ex_for(P).call_fn(fns['FillTholeInteraction'][0], [S1, S2], ex.this)
+            for k in range(3):
+                added = S2['V'].g(k).v + S2['V_noE'].g(k).v
+                obs.append(rvc.identity('C15.polar/induced-field.inst%s.p%d.%s' % (inst.get('id', '')[-4:], P.count, CO[k]), 'eeInteractor::ApplyInducedField_site',
+                                        'field added to site 2 == (Thole tensor)^T . induced dipole of site 1', added, sum(T.g(j, k).v * S1['mu'].g(j).v for j in range(3)), seed))
+            if not P.next():
+                break
+    # CalcPolarEnergy_site(polar, polar)
+    pp = [f for f in fns['CalcPolarEnergy_site'] if all('PolarSite' in p_['type']['qualType'] for p_ in f['inner'] if p_.get('kind') == 'ParmVarDecl')]
+    if not pp:
+        raise core.Undecided('front end: CalcPolarEnergy_site(PolarSite, PolarSite) not found')
+    P = rvc.Paths()
+    while True:
+        P.start()
+        rvc.CTX.base, rvc.CTX.rad = [], []
+        S1, S2 = polar('a', 1), polar('b', 1)
+        ex = ex_for(P)
+        val = ex.call_fn(pp[0], [S1, S2], ex.this)
+        T = ex_for(P).call_fn(fns['FillTholeInteraction'][0], [S1, S2], ex.this)
+        e1 = D.lift(ex_for(P).call_fn(fns['CalcPolar_stat_Energy_site'][0], [S1, S2], ex.this)).v
+        e2 = D.lift(ex_for(P).call_fn(fns['CalcPolar_stat_Energy_site'][0], [S2, S1], ex.this)).v
+        obs.append(rvc.identity('C15.polar/energy.indu_indu.p%d' % P.count, 'eeInteractor::CalcPolarEnergy_site', 'E_indu_indu == mu1^T T mu2', D.lift(val['E_indu_indu']).v,
+                                sum(S1['mu'].g(i).v * T.g(i, j).v * S2['mu'].g(j).v for i in range(3) for j in range(3)), seed))
+        obs.append(rvc.identity('C15.polar/energy.indu_stat.p%d' % P.count, 'eeInteractor::CalcPolarEnergy_site', 'E_indu_stat == induced(1)-static(2) + induced(2)-static(1)', D.lift(val['E_indu_stat']).v, e1 + e2, seed))
+        if not P.next():
+            break
+    mf = [{'name': 'eeInteractor::' + k, 'file': 'xtp/src/libxtp/eeinteractor.cc', 'ast_nodes': rvc.node_count(fns[k][0])} for k in ('CalcPolar_stat_Energy_site', 'ApplyInducedField_site', 'CalcPolarEnergy_site')]
+    for o in obs:
+        o['functions'] = mf
+    return obs
+
+
 def collect(obs):
     seen = set(f['name'] for f in META['functions'])
     for o in obs:
@@ -199,7 +272,7 @@ def collect(obs):
 
 
 def run(tier, seed, only=None):
-    jobs = [(job_sym, (a, b, seed)) for a in range(3) for b in range(3)] + [(job_field, (a, b, seed)) for a in range(3) for b in (1, 2)] + [(job_thole, (seed,))] + [(job_deriv, (rb, seed)) for rb in range(3)]
+    jobs = [(job_sym, (a, b, seed)) for a in range(3) for b in range(3)] + [(job_field, (a, b, seed)) for a in range(3) for b in (1, 2)] + [(job_thole, (seed,)), (job_polar, (seed,))] + [(job_deriv, (rb, seed)) for rb in range(3)]
     if only:
         jobs = [j for j in jobs if re.search(only, j[0].__name__ + str(j[1]))]
     obs = core.pmap(jobs)
